@@ -70,7 +70,15 @@ Nets ==
                                          : l2 \in {CHOOSE x \in Lin22 : TRUE} \cup Lin21 \cup Lin23, av2 \in {<<>>, <<ActLayer("relu", 0)>>}}
                                   : av \in ActVariants("relu", 2) \cup {[j \in 1..2 |-> ActLayer("hard_tanh", j - 1)]}}
                            : fl \in First}
-    IN One \cup Two
+        \* the same activation kind twice with different parameters (state carried from one layer to the next must not leak):
+        \* leaky ReLU with slopes a1 then a2 (halves; 0 = plain ReLU) around a second linear layer, or twice in a row on neuron 0
+        Leaky(r, a) == [k |-> "leaky", row |-> r, q |-> 2, alpha |-> a]
+        Slopes == {<<1, 4>>, <<4, 1>>, <<1, 0>>, <<0, 1>>}
+        Twice == UNION {UNION {{[dim |-> fl[1], layers |-> <<fl[2], Leaky(0, sl[1]), CHOOSE x \in Lin22 : TRUE, Leaky(0, sl[2])>> \o hd, pre |-> [kind |-> "none"]]
+                                  : hd \in {<<>>, <<[k |-> "argmax"]>>}}
+                                \cup {[dim |-> fl[1], layers |-> <<fl[2], Leaky(0, sl[1]), Leaky(0, sl[2])>>, pre |-> [kind |-> "none"]]}
+                                : sl \in Slopes} : fl \in First}
+    IN One \cup Two \cup Twice
 
 \* ---------------------------------------------------------------- C18: builder calls
 Call(nm, args) == [call |-> nm] @@ args
